@@ -141,7 +141,7 @@ class Effects(object):
                             out.add(('global', m, e.attr))
                 elif tag.startswith('K:'):
                     ci = self.index.classes.get(tag[2:])
-                    if ci is not None and ci.find_attr(e.attr) is not None:
+                    if ci is not None and ci.find_attr(e.attr) is not None and not self._is_descriptor(ci.find_attr(e.attr)):
                         owner = [c for c in ci.mro if e.attr in c.attrs][0]
                         out.add(('clsattr', owner.qualname, e.attr))
                 elif tag.startswith('C:'):
@@ -160,7 +160,7 @@ class Effects(object):
                         if (root, e.attr) in te.iattr:
                             out.add(('field', root, e.attr))
                         for s in te.subs(ci):
-                            if s.find_attr(e.attr) is not None:
+                            if s.find_attr(e.attr) is not None and not self._is_descriptor(s.find_attr(e.attr)):
                                 owner = [c for c in s.mro if e.attr in c.attrs][0]
                                 out.add(('clsattr', owner.qualname, e.attr))
                         ga = [s.find_method('__getattr__') for s in te.subs(ci)]
@@ -228,6 +228,10 @@ class Effects(object):
         if isinstance(e, ast.Lambda):
             return {IMM}
         return {EXT}
+
+    @staticmethod
+    def _is_descriptor(val):
+        return isinstance(val, ast.Call) and isinstance(val.func, ast.Name) and val.func.id in ('property', 'staticmethod', 'classmethod')
 
     def _build_alias_graph(self):
         te = self.te
@@ -507,6 +511,9 @@ class Effects(object):
                     ts = te.resolve_call(n, fn)
                     if any(t.kind == 'builtin' for t in ts):
                         rt = te.type_of(f.value, fn)
+                        guess_only = not (rt & CONTAINER_TAGS) and any(t.kind == 'func' for t in ts)
+                        if guess_only:
+                            continue     # e.g. x.add(y) on an untyped receiver: Element.add, handled as a call
                         if rt & (CONTAINER_TAGS | {'?'}) or not any(x.startswith('C:') for x in rt):
                             for loc in self._receiver_loc(f.value, fn):
                                 out.append(Write(n, fn, loc, 'mutate:' + f.attr))
